@@ -14,8 +14,19 @@
 //	                        Subscribe / cancel / Close / Poll calls on one client object
 //	                        (Subscribe again after Close or cancellation, Close twice,
 //	                        Close or Poll before any Subscribe, cancelled contexts).
+//	        query.go        the KIND of query of every Subscribe call of parts "random" and
+//	                        "lifetime" (Stream / Poll / Once / Unknown type, the ways
+//	                        Query.Validate rejects a query): calls the client documents to
+//	                        refuse return at once, run nothing, and leave the client object
+//	                        usable - every later Subscribe / Close is judged as before.
 //	half B (real transport) transport.go: the real gNMI Impl against an in-process gRPC
 //	                        server with a scripted Subscribe handler; order-only oracle.
+//	        part "real"     real.go: lifecycle sequences (Subscribe / cancel / Close on one
+//	                        client object, plain and reconnecting) over the real gNMI Impl
+//	                        with set-ups that fail AFTER a successful dial (rejected query
+//	                        paths, cancellation / Close between dial, RPC start and first
+//	                        Send, a server that refuses or closes the stream); no panic,
+//	                        every call returns (guard = inconclusive), order-only clauses.
 package clientprop
 
 import (
